@@ -31,6 +31,7 @@ def main():
     ap.add_argument("--inplace", action="store_true")
     ap.add_argument("--seeds", default="0")
     ap.add_argument("--demo", action="store_true", help="also run the demonstration with and without the change")
+    ap.add_argument("--tests", action="store_true", help="also run the pinned suite with the change and compare with BASELINE.json")
     a = ap.parse_args()
     d = os.path.abspath(a.dir)
     meta = json.load(open(os.path.join(d, "meta.json")))
@@ -62,6 +63,19 @@ def main():
             r1 = sh(f"/venv/bin/python {demo}", env=dict(env, PYTHONPATH=root), cwd="/tmp")
             r0 = sh(f"/venv/bin/python {demo}", env=dict(os.environ, PYTHONPATH="/repo"), cwd="/tmp") if not a.inplace else None
             print(f"demo with change: exit {r1.returncode}" + (f"; without: exit {r0.returncode}" if r0 else ""))
+        if a.tests:
+            import xml.etree.ElementTree as ET
+            out = tempfile.mktemp(suffix=".xml", dir="/tmp")
+            sh(f"cd {root} && /venv/bin/python -m pytest -q -p no:cacheprovider --timeout=900 --continue-on-collection-errors "
+               f"--no-cov --junitxml={out}", env=dict(env, PYTHONPATH=root))
+            want = set(json.load(open("/root/.vp/BASELINE.json"))["stable_pass"])
+            got = set()
+            for tc in ET.parse(out).getroot().iter("testcase"):
+                if not any(ch.tag in ("failure", "error", "skipped") for ch in tc):
+                    got.add(f"{tc.get('classname')}::{tc.get('name')}")
+            os.remove(out)
+            missing = sorted(want - got)
+            print(f"tests with change: baseline {len(want)} passing, missing now {len(missing)} {missing[:3]}")
         for c in checks:
             for seed in a.seeds.split(","):
                 r = sh(f"./check {c} {a.tier}", cwd=VERIF, env=dict(env, VERIF_SEED=seed))
